@@ -34,7 +34,7 @@ from ..kernel import RunResult, summarize, exception_origin, exception_site
 PROPERTY = "C04"
 LEVEL = "exploration"
 ABSTRACT_WIDTH = 3
-N_RUNS = {"quick": 200000, "thorough": 2500000}
+N_RUNS = {"quick": 200000, "thorough": 8000000}
 RULE = ("each run is either (a) a branch-isolation scenario: 1-4 branches of 1-3 in-place mutators "
         "(Variable, UpdateContext, MakeFilename, Count, user callables that append to the data "
         "list and write into the context, optional Slice that stops a branch mid-block) ending in "
